@@ -18,19 +18,22 @@
    3. call level ("absorption"): `lzma_decode` with more input and a larger limit = `lzma_decode` with less, followed — if that returned
       LZMA_OK — by `lzma_decode` with more (`lzma_call_absorbs`); the same for `lzma2_decode` up to the chunk-overrun error
       (`lzma2_call_absorbs`); a call that stopped for lack of input is idle (`lzma_call_idle`, `lzma2_call_idle`);
-   4. MAIN: any two settled sliced runs of the LZMA2 (LZMA1) decoder over the same input have the same status, and — unless the
-      chunk-overrun error was raised — the same output and the same consumed count (`lzma2_slicing_independent`,
-      `lzma1_slicing_independent`); each equals the one-shot model (`lzma2_sliced_eq_oneshot`, `lzma1_sliced_eq_oneshot`).
-   5. non-vacuity: a real LZMA2 stream whole / byte-at-a-time / one byte of room per call / ragged (`Lemmas/LzmaResumeExample.lean`),
+   4. MAIN (`lzma2_slicing_independent_all`, `lzma1_slicing_independent_all`): for EVERY input (valid or not) and ANY two slicings
+      (arbitrary pieces, zeros included, any total room, any number of window wraps) whose runs are settled, the LZMA2 (LZMA1) decoder
+      ends with the same status, and — unless the chunk-overrun error was raised — has written the same output and consumed the same
+      number of bytes; each run equals one call with the whole input and a larger allowance (`lzma2_sliced_eq_single_call`). The
+      earlier, restricted forms (`lzma2_slicing_independent`, `lzma1_slicing_independent`: no window wrap, `FreeRoom`) are kept because
+      the link to the ONE-SHOT model of Model/Lzma2.lean (`lzma2_sliced_eq_oneshot`, `lzma1_sliced_eq_oneshot`, `oneshot_*`) is proved
+      under the no-wrap bound only (see `Lemmas/LzmaResumeOneShotW.lean` for the state of the general form).
+   5. the resume point inside a symbol: re-decoding = continuing the suspended continuation (`resume_is_continuation`).
+   6. non-vacuity: a real LZMA2 stream whole / byte-at-a-time / one byte of room per call / ragged (`Lemmas/LzmaResumeExample.lean`),
       and the chunk-overrun counterexample (`Lemmas/LzmaResumeExample2.lean`: same status, different consumed/output).
-  RESTRICTIONS of 4 (stated in the theorems): (a) the dictionary window does not wrap: preset + total output room < rounded
-  dictionary size (`NoWrapRoom`); (b) slicings add resources monotonically (unused input/room stays available) and every call after
-  the first has at least one byte of free output room (`FreeRoom`) — a call with NO room can still consume input in liblzma
-  (`decode_buffer` returns right after a dictionary reset when `out` is full), so runs containing such calls are compared only via
-  later calls; (c) LZMA1: not "known uncompressed size AND end marker allowed" (`.lzma` files with known size; needs a range-decoder
-  invariant at the SEQ_IS_MATCH re-entry); (d) the saved resume point inside a symbol is modelled by re-decoding the symbol from the
-  saved members, not by `sequence` + locals (see Model/LzmaResume.lean): that C saves all the locals it needs is covered by the
-  C-vs-C oracle only.
+      LZMA1 in ANY configuration (also known size + end marker allowed, the F1 area): `lzma1_window_slicing_independent_any`.
+  WHAT IS NOT COVERED: (d) that liblzma's saved
+  `sequence` + locals (`symbol`, `offset`, `len`, `limit`, `probs`) denote the continuation of 5 — C-vs-C oracle only; (e) slicings
+  are covered in both protocols: cumulative resources (`runSlicedR`) and exact per-call windows that may shrink (`runSlicedX`,
+  the protocol of `Coder.runSliced` of Model/Coder.lean) — but the theorems are about `RSt`-level runs, not instances of the generic
+  `Coder`/`Sim` framework of Props/C06.lean; (f) the non-last filters of a chain, the containers, the encoders.
 -/
 import XzVerif.Lemmas.LzmaResumeIdle
 import XzVerif.Lemmas.LzmaResumeIdle1
@@ -40,6 +43,14 @@ import XzVerif.Lemmas.LzmaResumeL2
 import XzVerif.Lemmas.LzmaResumeInst1
 import XzVerif.Lemmas.LzmaResumeOneShot
 import XzVerif.Lemmas.LzmaResumeExample2
+import XzVerif.Lemmas.LzmaResumeWrap1
+import XzVerif.Lemmas.LzmaResumeWrap2
+import XzVerif.Lemmas.LzmaResumeWTop
+import XzVerif.Lemmas.LzmaResumeProc
+import XzVerif.Lemmas.LzmaResumeXTop
+import XzVerif.Lemmas.LzmaResumeHist
+import XzVerif.Lemmas.LzmaResumeOneShotW
+import XzVerif.Lemmas.LzmaResumeInst1Q
 
 namespace XzVerif.C06Slice
 open XzVerif XzVerif.LzDict XzVerif.Lzma XzVerif.Lzma2 XzVerif.LzmaR
@@ -234,6 +245,255 @@ theorem lzma1_sliced_eq_oneshot (props : Props) (dictSize : Nat) (uncomp : Optio
     rcases e with h | h
     · exact ⟨norm_output h.2, norm_inPos h.2⟩
     · have := h.2.2.1; rw [show X.r.overrun = false from hno] at this; cases this
+
+/-! ## 4b. the same WITHOUT the no-wrap bound and WITHOUT `FreeRoom`
+
+  `decode_buffer` wraps the window at `pos == size`; a call with more input can do work at the very end of the window (header bytes, the
+  bits of one more symbol) that a call with less input does only after the wrap. `dict.size` and `LZ_DICT_REPEAT_MAX` are multiples of 16
+  and `lc + lp ≤ 4`, `pb ≤ 4`, so `dict.pos & pos_mask` and the literal context agree on both sides of the wrap
+  (`Lemmas/LzmaResumeAlign.lean`); `lzma_call_wraps` / `lzma2_call_wraps` say that a call made with NO room at the end of the window
+  commutes with the wrap, and the LZ layer (`Lemmas/LzmaResumeWLz.lean`) uses that. States are compared up to a pending wrap (`EqvW`).
+  The top-level induction runs from the last call backwards, so calls with no free output room are allowed. -/
+
+/-- `lzma_decode` with no room at the end of the window, then wrap, then `lzma_decode` = wrap, then `lzma_decode`. -/
+theorem lzma_call_wraps : L1Wrap := l1Wrap
+
+theorem lzma1_call_wraps : CodeWrap P1 lzmaCallR := codeWrap_lzma1
+
+theorem lzma_call_keeps_props : L1Lclppb := fun r =>
+  ⟨(Wrap1.kp_lzmaCallR r).lc, (Wrap1.kp_lzmaCallR r).lp, (Wrap1.kp_lzmaCallR r).pb⟩
+
+/-- the LZMA2 layer with the extra invariant "the remembered properties are valid" (`P2'`) -/
+theorem lzma2_call_absorbs' : CodeAbsorb P2' lzma2CallR := codeAbsorb_lzma2'' l1Absorb
+theorem lzma2_call_idle' : CodeIdle P2' lzma2CallR := codeIdle_lzma2'' l1Idle
+theorem lzma2_call_wraps : CodeWrap P2' lzma2CallR := codeWrap_lzma2 l1Wrap lzma_call_keeps_props
+
+/-- **LZMA2, main theorem, unrestricted.** For every dictionary size, preset dictionary, input (valid or not) and ANY two slicings —
+    arbitrary pieces `(k, cap)`, zeros and calls without free room included, any total room, the window may wrap any number of times —
+    whose runs are settled (ended with LZMA_STREAM_END / an error, or LZMA_OK with all input offered and room to spare): same status; and
+    unless both ended with the chunk-overrun LZMA_DATA_ERROR, the same output bytes and the same consumed count. -/
+theorem lzma2_slicing_independent_all (dictSize : Nat) (preset input : List UInt8) (sl1 sl2 : List (Nat × Nat))
+    (hset1 : Settled (runSlicedR .lzma2 input sl1 { r := initLzma2R dictSize preset }))
+    (hset2 : Settled (runSlicedR .lzma2 input sl2 { r := initLzma2R dictSize preset })) :
+    let X1 := runSlicedR .lzma2 input sl1 { r := initLzma2R dictSize preset }
+    let X2 := runSlicedR .lzma2 input sl2 { r := initLzma2R dictSize preset }
+    X1.ret = X2.ret
+    ∧ (X1.r.overrun = false ∨ X2.r.overrun = false → X1.r.output = X2.r.output ∧ X1.r.s.inPos = X2.r.s.inPos) := by
+  intro X1 X2
+  have hi0 := invW_initLzma2R (P := P2') dictSize preset (p2'_init dictSize preset)
+  have e1 := sliced_settled_eq_whole_w' lzma2_call_absorbs' lzma2_call_wraps lzma2_call_idle' input hi0 sl1 hset1
+    (max X1.room X2.room + 1) (Nat.lt_succ_of_le (Nat.le_max_left _ _))
+  have e2 := sliced_settled_eq_whole_w' lzma2_call_absorbs' lzma2_call_wraps lzma2_call_idle' input hi0 sl2 hset2
+    (max X1.room X2.room + 1) (Nat.lt_succ_of_le (Nat.le_max_right _ _))
+  have e := e1.trans e2.symm
+  refine ⟨?_, ?_⟩
+  · rcases e with h | h
+    · exact h.1
+    · exact h.1.trans h.2.1.symm
+  · intro hno
+    rcases e with h | h
+    · exact ⟨normW_output h.2, normW_inPos h.2⟩
+    · rcases hno with hn | hn
+      · have := h.2.2.1; rw [show X1.r.overrun = false from hn] at this; cases this
+      · have := h.2.2.2; rw [show X2.r.overrun = false from hn] at this; cases this
+
+/-- … and every settled sliced run equals ONE call of the resumable model with the whole input and any larger output allowance
+    (e.g. `Lzma.UNLIMITED`): same status, and unless the chunk-overrun error was raised, same output and consumed count. -/
+theorem lzma2_sliced_eq_single_call (dictSize : Nat) (preset input : List UInt8) (sl : List (Nat × Nat))
+    (hset : Settled (runSlicedR .lzma2 input sl { r := initLzma2R dictSize preset }))
+    (Nstar : Nat) (hN : (runSlicedR .lzma2 input sl { r := initLzma2R dictSize preset }).room < Nstar) :
+    let X := runSlicedR .lzma2 input sl { r := initLzma2R dictSize preset }
+    let Y := callR .lzma2 (toBuf input) Nstar (initLzma2R dictSize preset)
+    X.ret = Y.1 ∧ (X.r.overrun = false → X.r.output = Y.2.output ∧ X.r.s.inPos = Y.2.s.inPos) := by
+  intro X Y
+  have hi0 := invW_initLzma2R (P := P2') dictSize preset (p2'_init dictSize preset)
+  have e := sliced_settled_eq_whole_w' lzma2_call_absorbs' lzma2_call_wraps lzma2_call_idle' input hi0 sl hset Nstar hN
+  refine ⟨?_, ?_⟩
+  · rcases e with h | h
+    · exact h.1
+    · exact h.1.trans h.2.1.symm
+  · intro hno
+    rcases e with h | h
+    · exact ⟨normW_output h.2, normW_inPos h.2⟩
+    · have := h.2.2.1; rw [show X.r.overrun = false from hno] at this; cases this
+
+/-- **LZMA1, unrestricted in window and slicing** (valid `lc/lp/pb`; unknown size, or known size without end marker). -/
+theorem lzma1_slicing_independent_all (props : Props) (hv : props.valid = true) (dictSize : Nat) (uncomp : Option Nat) (allowEopm : Bool)
+    (hcfg : uncomp = none ∨ allowEopm = false) (preset input : List UInt8) (sl1 sl2 : List (Nat × Nat))
+    (hset1 : Settled (runSlicedR .lzma1 input sl1 { r := initLzma1R props dictSize uncomp allowEopm preset }))
+    (hset2 : Settled (runSlicedR .lzma1 input sl2 { r := initLzma1R props dictSize uncomp allowEopm preset })) :
+    let X1 := runSlicedR .lzma1 input sl1 { r := initLzma1R props dictSize uncomp allowEopm preset }
+    let X2 := runSlicedR .lzma1 input sl2 { r := initLzma1R props dictSize uncomp allowEopm preset }
+    X1.ret = X2.ret
+    ∧ (X1.r.overrun = false ∨ X2.r.overrun = false → X1.r.output = X2.r.output ∧ X1.r.s.inPos = X2.r.s.inPos) := by
+  intro X1 X2
+  have hi0 := invW_initLzma1R (P := P1) props dictSize uncomp allowEopm preset hv (p1_init props dictSize uncomp allowEopm preset hcfg)
+  have e1 := sliced_settled_eq_whole_w' lzma1_call_absorbs lzma1_call_wraps lzma1_call_idle input hi0 sl1 hset1
+    (max X1.room X2.room + 1) (Nat.lt_succ_of_le (Nat.le_max_left _ _))
+  have e2 := sliced_settled_eq_whole_w' lzma1_call_absorbs lzma1_call_wraps lzma1_call_idle input hi0 sl2 hset2
+    (max X1.room X2.room + 1) (Nat.lt_succ_of_le (Nat.le_max_right _ _))
+  have e := e1.trans e2.symm
+  refine ⟨?_, ?_⟩
+  · rcases e with h | h
+    · exact h.1
+    · exact h.1.trans h.2.1.symm
+  · intro hno
+    rcases e with h | h
+    · exact ⟨normW_output h.2, normW_inPos h.2⟩
+    · rcases hno with hn | hn
+      · have := h.2.2.1; rw [show X1.r.overrun = false from hn] at this; cases this
+      · have := h.2.2.2; rw [show X2.r.overrun = false from hn] at this; cases this
+
+/-! ## 4b′. exact per-call windows (the `lzma_code` protocol: `avail_in`, `avail_out` per call; windows may shrink)
+
+  `runSlicedX` (Model/LzmaResumeRun.lean): the piece `(inLen, cap)` offers the next `inLen` unconsumed input bytes and exactly `cap` bytes
+  of output space; what a call leaves unconsumed is offered again, unused output space is not carried over. `settled` as in
+  `Coder.Run` of Model/Coder.lean. -/
+
+/-- **LZMA2, any two settled exact-window slicings** (arbitrary `(avail_in, avail_out)` per call, zeros included): same status; unless
+    both raised the chunk-overrun error: same output, same consumed count. -/
+theorem lzma2_window_slicing_independent (dictSize : Nat) (preset input : List UInt8) (sl1 sl2 : List (Nat × Nat))
+    (hset1 : (runSlicedX .lzma2 input sl1 { r := initLzma2R dictSize preset }).settled = true)
+    (hset2 : (runSlicedX .lzma2 input sl2 { r := initLzma2R dictSize preset }).settled = true) :
+    let X1 := runSlicedX .lzma2 input sl1 { r := initLzma2R dictSize preset }
+    let X2 := runSlicedX .lzma2 input sl2 { r := initLzma2R dictSize preset }
+    X1.ret = X2.ret
+    ∧ ((X1.r.overrun = false ∨ X2.r.overrun = false) → X1.r.output = X2.r.output ∧ X1.r.s.inPos = X2.r.s.inPos) :=
+  two_xslicings_agree_obs lzma2_call_absorbs' lzma2_call_wraps lzma2_call_idle' input
+    (invW_initLzma2R (P := P2') dictSize preset (p2'_init dictSize preset)) sl1 sl2 hset1 hset2
+
+theorem lzma1_window_slicing_independent (props : Props) (hv : props.valid = true) (dictSize : Nat) (uncomp : Option Nat) (allowEopm : Bool)
+    (hcfg : uncomp = none ∨ allowEopm = false) (preset input : List UInt8) (sl1 sl2 : List (Nat × Nat))
+    (hset1 : (runSlicedX .lzma1 input sl1 { r := initLzma1R props dictSize uncomp allowEopm preset }).settled = true)
+    (hset2 : (runSlicedX .lzma1 input sl2 { r := initLzma1R props dictSize uncomp allowEopm preset }).settled = true) :
+    let X1 := runSlicedX .lzma1 input sl1 { r := initLzma1R props dictSize uncomp allowEopm preset }
+    let X2 := runSlicedX .lzma1 input sl2 { r := initLzma1R props dictSize uncomp allowEopm preset }
+    X1.ret = X2.ret
+    ∧ ((X1.r.overrun = false ∨ X2.r.overrun = false) → X1.r.output = X2.r.output ∧ X1.r.s.inPos = X2.r.s.inPos) :=
+  two_xslicings_agree_obs lzma1_call_absorbs lzma1_call_wraps lzma1_call_idle input
+    (invW_initLzma1R (P := P1) props dictSize uncomp allowEopm preset hv (p1_init props dictSize uncomp allowEopm preset hcfg))
+    sl1 sl2 hset1 hset2
+
+/-- **LZMA1 in ANY configuration** — also "known uncompressed size AND end marker allowed" (`.lzma` files with known size,
+    LZMA1EXT + ALLOW_EOPM; the configuration of the historical defect F1, where `eopm_is_valid` was forgotten between calls): the
+    restriction `hcfg` is replaced by the range-decoder/probability invariant `RcQR` (range ≥ 2^16, probabilities in [31, 2017]),
+    which holds from initialisation on: after the known-size test has normalised the range decoder, the re-entry at SEQ_IS_MATCH cannot
+    run out of input. Call level: `l1AbsorbQ`, `l1IdleQ`, `l1WrapQ` (Lemmas/LzmaResumeL1Q.lean, Idle1Q, Wrap1Q). -/
+theorem lzma1_window_slicing_independent_any (props : Props) (hv : props.valid = true) (dictSize : Nat) (uncomp : Option Nat)
+    (allowEopm : Bool) (preset input : List UInt8) (sl1 sl2 : List (Nat × Nat))
+    (hset1 : (runSlicedX .lzma1 input sl1 { r := initLzma1R props dictSize uncomp allowEopm preset }).settled = true)
+    (hset2 : (runSlicedX .lzma1 input sl2 { r := initLzma1R props dictSize uncomp allowEopm preset }).settled = true) :
+    let X1 := runSlicedX .lzma1 input sl1 { r := initLzma1R props dictSize uncomp allowEopm preset }
+    let X2 := runSlicedX .lzma1 input sl2 { r := initLzma1R props dictSize uncomp allowEopm preset }
+    X1.ret = X2.ret
+    ∧ ((X1.r.overrun = false ∨ X2.r.overrun = false) → X1.r.output = X2.r.output ∧ X1.r.s.inPos = X2.r.s.inPos) :=
+  two_xslicings_agree_obs codeAbsorb_lzma1Q' codeWrap_lzma1Q' codeIdle_lzma1Q input
+    (invW_initLzma1R (P := P1Q) props dictSize uncomp allowEopm preset hv (p1q_init props dictSize uncomp allowEopm preset))
+    sl1 sl2 hset1 hset2
+
+/-- the same for growing-resource slicings (`runSlicedR`) -/
+theorem lzma1_slicing_independent_any (props : Props) (hv : props.valid = true) (dictSize : Nat) (uncomp : Option Nat) (allowEopm : Bool)
+    (preset input : List UInt8) (sl1 sl2 : List (Nat × Nat))
+    (hset1 : Settled (runSlicedR .lzma1 input sl1 { r := initLzma1R props dictSize uncomp allowEopm preset }))
+    (hset2 : Settled (runSlicedR .lzma1 input sl2 { r := initLzma1R props dictSize uncomp allowEopm preset }))
+    (hno : (runSlicedR .lzma1 input sl1 { r := initLzma1R props dictSize uncomp allowEopm preset }).r.overrun = false
+      ∨ (runSlicedR .lzma1 input sl2 { r := initLzma1R props dictSize uncomp allowEopm preset }).r.overrun = false) :
+    let X1 := runSlicedR .lzma1 input sl1 { r := initLzma1R props dictSize uncomp allowEopm preset }
+    let X2 := runSlicedR .lzma1 input sl2 { r := initLzma1R props dictSize uncomp allowEopm preset }
+    X1.ret = X2.ret ∧ X1.r.output = X2.r.output ∧ X1.r.s.inPos = X2.r.s.inPos :=
+  two_slicings_agree_settled_obs_w' codeAbsorb_lzma1Q' codeWrap_lzma1Q' codeIdle_lzma1Q input
+    (invW_initLzma1R (P := P1Q) props dictSize uncomp allowEopm preset hv (p1q_init props dictSize uncomp allowEopm preset))
+    sl1 sl2 hset1 hset2 hno
+
+/-- `RSt.output` (what the theorems compare) IS the concatenation of what the individual calls wrote: the history is append-only. -/
+theorem output_is_concatenation (kind : Kind) (input : List UInt8) (sl : List (Nat × Nat)) (x : XRun)
+    (h : x.r.s.outBase ≤ x.r.s.hist.size) :
+    (runSlicedX kind input sl x).r.output = x.r.output ++ (outsX kind input sl x).flatten :=
+  runSlicedX_output kind input sl x h
+
+/-- … and a settled exact-window run agrees with the ONE-SHOT model `Lzma2.lzma2Decode` on the whole input with any allowance `Nstar`
+    above everything the run offered (e.g. the default `Lzma.UNLIMITED`), provided the one-shot run did not starve exactly at the end
+    of the window (`StuckAtWrap`, see Lemmas/LzmaResumeOneShotW.lean — the one situation in which the link between the two models is
+    not proved; it cannot occur when the one-shot status is LZMA_STREAM_END or an error). -/
+theorem lzma2_window_sliced_eq_oneshot (dictSize : Nat) (preset input : List UInt8) (sl : List (Nat × Nat))
+    (hset : (runSlicedX .lzma2 input sl { r := initLzma2R dictSize preset }).settled = true)
+    (Nstar : Nat) (hN : maxRoomX .lzma2 input sl { r := initLzma2R dictSize preset } < Nstar)
+    (hns : ¬ StuckAtWrap ((Coder.initLzma2 dictSize preset (toBuf input)).code Nstar).2) :
+    let X := runSlicedX .lzma2 input sl { r := initLzma2R dictSize preset }
+    X.ret = (lzma2Decode dictSize input preset Nstar).ret
+    ∧ (X.r.overrun = false →
+        X.r.output = (lzma2Decode dictSize input preset Nstar).out ∧ X.r.s.inPos = (lzma2Decode dictSize input preset Nstar).consumed) := by
+  intro X
+  have e := xsliced_settled_eq_whole lzma2_call_absorbs' lzma2_call_wraps lzma2_call_idle' input
+    (invW_initLzma2R (P := P2') dictSize preset (p2'_init dictSize preset)) sl hset Nstar hN
+  rw [lzma2Decode_eq_callR_unlessStuckAtWrap dictSize preset input Nstar hns]
+  refine ⟨?_, ?_⟩
+  · rcases e with h | h
+    · exact h.1
+    · exact h.1.trans h.2.1.symm
+  · intro hno
+    rcases e with h | h
+    · exact ⟨normW_output h.2, normW_inPos h.2⟩
+    · have := h.2.2.1; rw [show X.r.overrun = false from hno] at this; cases this
+
+/-- For streams that END (one-shot status LZMA_STREAM_END or an error) the link is unconditional: every settled exact-window run over
+    the input returns what `lzma2Decode` returns for the whole input and any allowance above what the run offered. -/
+theorem lzma2_window_sliced_eq_oneshot_ended (dictSize : Nat) (preset input : List UInt8) (sl : List (Nat × Nat))
+    (hset : (runSlicedX .lzma2 input sl { r := initLzma2R dictSize preset }).settled = true)
+    (Nstar : Nat) (hN : maxRoomX .lzma2 input sl { r := initLzma2R dictSize preset } < Nstar)
+    (hend : (lzma2Decode dictSize input preset Nstar).ret ≠ .ok) :
+    let X := runSlicedX .lzma2 input sl { r := initLzma2R dictSize preset }
+    X.ret = (lzma2Decode dictSize input preset Nstar).ret
+    ∧ (X.r.overrun = false →
+        X.r.output = (lzma2Decode dictSize input preset Nstar).out ∧ X.r.s.inPos = (lzma2Decode dictSize input preset Nstar).consumed) := by
+  intro X
+  have e := xsliced_settled_eq_whole lzma2_call_absorbs' lzma2_call_wraps lzma2_call_idle' input
+    (invW_initLzma2R (P := P2') dictSize preset (p2'_init dictSize preset)) sl hset Nstar hN
+  rw [lzma2Decode_eq_callR_of_ended dictSize preset input Nstar hend]
+  refine ⟨?_, ?_⟩
+  · rcases e with h | h
+    · exact h.1
+    · exact h.1.trans h.2.1.symm
+  · intro hno
+    rcases e with h | h
+    · exact ⟨normW_output h.2, normW_inPos h.2⟩
+    · have := h.2.2.1; rw [show X.r.overrun = false from hno] at this; cases this
+
+theorem lzma1_window_sliced_eq_oneshot_ended (props : Props) (hv : props.valid = true) (dictSize : Nat) (uncomp : Option Nat)
+    (allowEopm : Bool) (preset input : List UInt8) (sl : List (Nat × Nat))
+    (hset : (runSlicedX .lzma1 input sl { r := initLzma1R props dictSize uncomp allowEopm preset }).settled = true)
+    (Nstar : Nat) (hN : maxRoomX .lzma1 input sl { r := initLzma1R props dictSize uncomp allowEopm preset } < Nstar)
+    (hend : (lzmaDecode props dictSize uncomp allowEopm input preset Nstar).ret ≠ .ok) :
+    let X := runSlicedX .lzma1 input sl { r := initLzma1R props dictSize uncomp allowEopm preset }
+    X.ret = (lzmaDecode props dictSize uncomp allowEopm input preset Nstar).ret
+    ∧ X.r.output = (lzmaDecode props dictSize uncomp allowEopm input preset Nstar).out
+    ∧ X.r.s.inPos = (lzmaDecode props dictSize uncomp allowEopm input preset Nstar).consumed := by
+  intro X
+  have e := xsliced_settled_eq_whole codeAbsorb_lzma1Q' codeWrap_lzma1Q' codeIdle_lzma1Q input
+    (invW_initLzma1R (P := P1Q) props dictSize uncomp allowEopm preset hv (p1q_init props dictSize uncomp allowEopm preset))
+    sl hset Nstar hN
+  rw [lzmaDecode_eq_callR_of_ended props dictSize uncomp allowEopm preset input Nstar hend]
+  rcases e with h | h
+  · exact ⟨h.1, normW_output h.2, normW_inPos h.2⟩
+  · -- the overrun flag is never set by the LZMA1 coder: both flags equal the initial `false`
+    exfalso
+    have h0 : (callR .lzma1 (toBuf input) Nstar (initLzma1R props dictSize uncomp allowEopm preset)).2.overrun = false :=
+      lzma1_overrun_false _ _ _ rfl
+    have := h.2.2.2
+    rw [h0] at this
+    cases this
+
+/-! ## 4c. the resume point inside a symbol
+
+  `Model/LzmaResume.lean` represents "stopped inside a symbol" by the saved members and re-decodes the symbol over the longer input.
+  `Lemmas/LzmaResumeProc.lean` gives the continuation semantics of the SAME monadic text (`decodeSymbolP`: every byte fetch suspends,
+  the saved resume state is the continuation) and shows that the two agree: -/
+
+/-- Continuing the continuation that was suspended when the input `s.inp` ran out, over a longer input `inp'`, is decoding the symbol again
+    from its start state over `inp'`. (That liblzma's saved `sequence` + locals denote this continuation is not a theorem here.) -/
+theorem resume_is_continuation (ev : Bool) (s : St) (inp' : ByteArray) (hag : Agree s.inp.size s.inp inp') (hpos : s.inPos ≤ s.inp.size) :
+    mapSt (fun t => St.withInp t inp') (Proc.run inp' (Proc.susp s.inp (Proc.decodeSymbolP ev s))) = decodeSymbol ev (St.withInp s inp') :=
+  Proc.resume_is_redecode_view ev s inp' hag hpos
 
 /-! ## 5. non-vacuity -/
 
